@@ -535,7 +535,25 @@ func (sc *specCtx) evalCall(x *ast.CallExpr) Value {
 		n.inOld = true
 		return n.eval(x.Args[0])
 	case "implies":
-		return Imp(sc.evalBool(x.Args[0]), sc.evalBool(x.Args[1]))
+		prem := sc.evalBool(x.Args[0])
+		if prem.IsFalse() {
+			return True()
+		}
+		// a consequence that is not well defined in this state (e.g. bytes of a nil result) is an
+		// arbitrary boolean: the implication then holds only if the premise is refuted
+		var cons *Term
+		func() {
+			defer func() {
+				if r := recover(); r != nil {
+					if prem.IsTrue() {
+						panic(r)
+					}
+					cons = FreshVar("undefined", SBool)
+				}
+			}()
+			cons = sc.evalBool(x.Args[1])
+		}()
+		return Imp(prem, cons)
 	case "iff":
 		return Eq(sc.evalBool(x.Args[0]), sc.evalBool(x.Args[1]))
 	case "ite":
@@ -753,6 +771,31 @@ func (sc *specCtx) evalCall(x *ast.CallExpr) Value {
 			ts = append(ts, MulC(b, pow2(int(8*i))))
 		}
 		return Add(append(ts, ConstI(0))...)
+	case "unwrap":
+		iv, ok := sc.eval(x.Args[0]).(IfaceV)
+		if !ok {
+			sc.errorf(x, "unwrap of a non-interface")
+		}
+		return iv.V
+	case "istype", "astype":
+		iv, ok := sc.eval(x.Args[0]).(IfaceV)
+		if !ok || iv.Sym == nil {
+			sc.errorf(x, "%s needs a symbolic interface value", name)
+		}
+		ref, isRef := sc.st.ifaceRefined[iv.Sym.id]
+		if name == "istype" {
+			if isRef {
+				return True()
+			}
+			if sc.st.ifaceDenied[iv.Sym.id] {
+				return False()
+			}
+			sc.errorf(x, "the dynamic type of this interface was never tested on this path")
+		}
+		if isRef {
+			return ref.V
+		}
+		return SliceV{}
 	case "entropyReads":
 		return ConstI(int64(len(sc.st.entropyReads)))
 	case "entropyRead":
@@ -809,9 +852,35 @@ func (sc *specCtx) bytesOf(e ast.Expr, v Value) Value {
 	return sc.en.bytesTerm(sc.st, sc.mem(), v)
 }
 
+// fresh(x): x is backed by memory allocated during this call (decided by provenance: the region is a
+// heap object that did not exist at function entry), hence aliases nothing the caller holds.
 func (sc *specCtx) freshPred(e ast.Expr, v Value) Value {
-	// decided by provenance in checkPost; here it is a placeholder that is true
-	return True()
+	var r *Region
+	switch x := v.(type) {
+	case SliceV:
+		r = x.R
+	case PtrV:
+		r = x.R
+	case IfaceV:
+		return sc.freshPred(e, x.V)
+	}
+	if r == nil {
+		return False()
+	}
+	if sc.oldMem != nil {
+		if _, existed := sc.oldMem[r]; existed {
+			return False()
+		}
+	}
+	if r.kind == "heap" || r.kind == "local" {
+		sc.en.flowOK++
+		return True()
+	}
+	// results of callees under contract are fresh if the callee's contract says so (assumed at the call)
+	if sc.st.freshRegions[r] {
+		return True()
+	}
+	return False()
 }
 
 func (sc *specCtx) sqn(b, k *Term, m *big.Int, unfold bool) *Term {
